@@ -258,7 +258,7 @@ def hyper_judge(sc, d):
         fwd = route[0] in a0 and route[-1] in a1
         bwd = route[0] in a1 and route[-1] in a0
         if not fwd and not bwd:
-            # classifier hyperedge_free_terminal_displaced: improvement on; one end attached to a free point; the route's junction extremity is
+            # diagnosis label hyperedge_free_terminal_displaced (defect fixed in /repo 4cfc785): improvement on; one end attached to a free point; the route's junction extremity is
             # at position() / recommendedPosition(); its other extremity is not the terminal but shares x or y with it
             disp = None
             if sc['opt'] > 0:
@@ -289,6 +289,7 @@ def check_hyper(res, exe, drv, scenes, stats, samples):
         res.violation({'what': 'harness batch failed but every single hyperedge scene ran', 'rc': rc, 'stderr': err[-1500:]}, no_input=True)
         return
     queries, meta = [], []
+    displaced = {}
     for sc, run in zip(scenes, runs):
         cfg = 'hyper-%s-opt%d-%s' % (sc['kind'], sc['opt'], 'nudge' if sc['nudge'] else 'nonudge')
         if run['exc'] is not None or len(run['dumps']) != 1:
@@ -318,14 +319,10 @@ def check_hyper(res, exe, drv, scenes, stats, samples):
                 obj['what'] = ('hyperedge improvement displaced the free-point terminal of a connector: displayRoute() starts at the junction '
                                '(recommendedPosition) but its other extremity is not the terminal it is attached to')
                 obj.update(disp)
-                stats['hyper_terminal_displaced'] += 1
-                if stats['hyper_terminal_displaced'] > 2 and not res.known_fingerprint(FP_DISPLACED):
-                    continue                                  # unclassified so far: two reproducers are enough
-                if not res.violation(obj, fingerprint=FP_DISPLACED):
-                    continue
-            else:
-                stats['hyper_end_problems'] += 1
-                res.violation(obj)
+                displaced[(id(sc), cid)] = obj                # classified below, once segs_clear of this route is known
+                continue
+            stats['hyper_end_problems'] += 1
+            res.violation(obj)
             stats['violations'] += 1
         for cid, route, q in qs:
             queries.append(q)
@@ -341,6 +338,17 @@ def check_hyper(res, exe, drv, scenes, stats, samples):
             samples.append({'family': 'hyper', 'scene': sc, 'connector': cid, 'ends': d['hends'].get(cid), 'junctions': d.get('juncs'),
                             'displayRoute': route, 'segs_clear': a})
         off = A.parse_chk(a)
+        dobj = displaced.pop((id(sc), cid), None)
+        if dobj is not None:
+            # defect repaired in /repo (4cfc785); the label is kept as a diagnosis only - a displaced free terminal is a plain VIOLATION
+            stats['hyper_terminal_displaced'] += 1
+            dobj['segs_clear_over_all_shapes'] = a
+            dobj['diagnosis'] = FP_DISPLACED
+            if off:
+                dobj['what'] += ' - and the displayed route also passes through a shape interior'
+            stats['violations'] += 1
+            if stats['hyper_terminal_displaced'] <= 3:
+                res.violation(dobj)
         if off:
             stats['violations'] += 1
             stats['hyper_crossings'] = stats.get('hyper_crossings', 0) + 1
@@ -373,6 +381,13 @@ def corpus_cases():
 def run_corpus(res, exe, drv, stats):
     """corpus entries: {'script': [...], 'shapes': [...], 'conns': [[s,d]...]} - the LAST dump of the run is checked"""
     for name, j in corpus_cases():
+        if j.get('family') == 'hyper':
+            sc = dict(j['scene'])
+            sc['shapes'] = [[tuple(q) for q in P] for P in sc['shapes']]
+            sc['junction'] = tuple(sc['junction']); sc['terms'] = [tuple(t) for t in sc['terms']]
+            check_hyper(res, exe, drv, [sc], stats, [])
+            stats['corpus'] += 1
+            continue
         runs, rc, err = A.run_harness(exe, j['script'])
         if rc != 0 or not runs or runs[0]['exc'] or not runs[0]['dumps']:
             res.violation({'what': 'corpus case does not run', 'corpus': name, 'rc': rc, 'exception': runs[0]['exc'] if runs else None,
@@ -405,7 +420,14 @@ def run(tier):
         'orthogonal mode treats a shape as its bounding box (Obstacle::routingBox), so in orthogonal configurations the generated '
         'endpoints lie outside every shape\'s bounding box (an endpoint inside the box of a triangle is inside the obstacle for that mode)',
         'the blocking-test theorems are about Gen/Geometry.v (cpp2v, regenerated this run); Lee\'s rotational sweep and the '
-        'orthogonal sweep are not modelled - their effect is only observed through route validity (V), which is validation, not proof']
+        'orthogonal sweep are not modelled - their effect is only observed through route validity (V), which is validation, not proof',
+        'contains family: endpoints may lie strictly inside a shape (integer points; orthogonal mode: rectangles only); a shape is exempt for a '
+        'connector only while it strictly contains one of its endpoints in the scene of that moment (route_ok is evaluated on the current polygons '
+        'after every processTransaction); no buffer distance in this family',
+        'hyperedge family: junction and terminals are generated in free space (>= 6 + buffer outside every rectangle), so the exemption-free segs_clear '
+        'over all shapes is the oracle; a junction end may be at position() or recommendedPosition(); a route written dst -> src is accepted (C11 known '
+        'finding hyperedge_route_reversed); scenes that die on the C11 known assertion makepath.cpp orthogonalDirectionsCount (F-h) are skipped and '
+        'counted; fixed junctions only with idealNudgingDistance > 0']
     exe = A.harness()
     drv = A.driver()
     rng = C.SplitMix64(C.get_seed() ^ 0xC03)
@@ -432,7 +454,7 @@ def run(tier):
     for i in range(0, len(cases), B):
         check_cases(res, exe, drv, cases[i:i + B], stats, samples)
     # contains family (histories) and hyperedge family
-    n_cont, n_hyp = (16, 260) if tier == 'quick' else (150, 2500)
+    n_cont, n_hyp = (30, 600) if tier == 'quick' else (200, 4000)
     hists = []
     for (name, mode, pen, nudge, trans) in CONTAINS_CONFIGS:
         k = 0
@@ -481,7 +503,7 @@ def run(tier):
                              'scenes_whose_junction_or_connector_set_changed': stats['hyper_topology_changed'],
                              'reversed_routes_accepted_(C11_hyperedge_route_reversed)': stats['hyper_reversed_routes'],
                              'scenes_skipped_on_C11_F-h_assertion': stats['hyper_c11_fh_assertion_skipped'],
-                             'connectors_with_displaced_free_terminal_(hyperedge_free_terminal_displaced)': stats['hyper_terminal_displaced'],
+                             'connectors_with_displaced_free_terminal_(fixed_4cfc785)': stats['hyper_terminal_displaced'],
                              'route_end_problems_reported': stats['hyper_end_problems'],
                              'routes_through_a_shape_interior': stats.get('hyper_crossings', 0)}})
     if not res.violations and not info['ok']:
@@ -542,13 +564,19 @@ META = {
                 'and is REFUTED on degenerate chords (square (0,0)-(10,10), segment (-5,-5)-(15,15); '
                 'known finding F-b, replayed on the real router every run); (3) the reference router only returns chains of visible segments, '
                 'so its routes pass route_ok. Tie: translator for the predicates + the extracted route_ok run on every real displayRoute of a '
-                'generic and a degenerate scene stream (V: validation and search, not proof of the implementation).',
+                'generic and a degenerate scene stream, on multi-transaction histories in which an endpoint starts inside a shape that later leaves it '
+                '(exemption evaluated on the current scene), and segs_clear (C03_segs_clear_exact: no segment through any shape, no exemption) on every connector of '
+                'hyperedge scenes (free junction, 3-5 orthogonal connectors, both improvement options, with/without nudging) '
+                '(V: validation and search, not proof of the implementation).',
         'design_ref': 'DESIGN.md 5.3'},
     'level_note': 'partial + finding. Trusted: Coq kernel; cpp2v.py + clang AST; exact-rational model of binary64; extraction (ExtrOcamlBasic) and the '
                   'OCaml/C++ drivers. Not modelled: Lee\'s rotational sweep (visibility.cpp), the orthogonal sweep and nudging - seen only through '
                   'route validity on generated scenes. The classifier degenerate_chord is proved equal to its declarative meaning (degenerate_chord_exact, '
                   'boundary_vertices_iff); the blocking test is proved sound for strictly convex shapes with distinct vertices and non-empty interior '
                   '(blocked_sound, blocked_exact); the reference search is proved never to answer SearchFail (route_plain_total). '
-                  'Orthogonal mode treats shapes as bounding boxes, so endpoints are generated outside the boxes there.',
+                  'Orthogonal mode treats shapes as bounding boxes, so endpoints are generated outside the boxes there (contains family: strictly inside rectangles). '
+                  'Hyperedge improvement (hyperedgeimprover.cpp / hyperedgetree.cpp) is not modelled: seen only through segs_clear and the route-end oracle on generated '
+                  'scenes; the defect they exposed (free-point terminal dragged along by the segment shifting, diagnosis label hyperedge_free_terminal_displaced) is repaired '
+                  'in /repo (4cfc785) and kept as the regression scene corpus/c03_hyper_terminal.json.',
     'technique': 'Coq proof over cpp2v-regenerated Gallina + verified route checker run on the implementation\'s routes',
 }
